@@ -260,6 +260,17 @@ func sameErr(a, b error) bool {
 	return errString(a) == errString(b)
 }
 
+// safeParse runs one parse, turning a panic of the parser into a value.
+func safeParse(t *Target, ctx context.Context, input string, rec *recorder) (val string, err error, panicked string) {
+	defer func() {
+		if r := recover(); r != nil {
+			panicked = fmt.Sprint(r)
+		}
+	}()
+	val, err = t.Parse(ctx, input, rec)
+	return
+}
+
 func breakInput(src *sim.Src, in string) string {
 	if len(in) < 8 {
 		return in + " @"
@@ -365,7 +376,14 @@ func (engine) Run(src *sim.Src, log *sim.Log, res *sim.Result) {
 	rctx.record = true
 	rrec := &recorder{ctx: rctx, diverged: -1, stopAt: stopAt}
 	rctx.rec = rrec
-	rval, rerr := t.Parse(rctx, input, rrec)
+	rval, rerr, rpanic := safeParse(t, rctx, input, rrec)
+	if rpanic != "" {
+		// The parser panics on this input with no cancellation involved: outside this
+		// property (that is error-recovery / language-equivalence territory). Counted.
+		res.Skipped = "parser panics without cancellation: " + t.Name
+		log.Printf("reference run panicked: %s", rpanic)
+		return
+	}
 	ref := outcome{val: rval, err: rerr, n: rrec.n, errh: rrec.errh, maxEnd: rrec.maxEnd, polls: rctx.npolls, ticks: rctx.nticks}
 	kinds := rctx.kinds
 	log.Printf("ref: err=%s events=%d errh=%d ticks=%d polls=%d val=%.40q", errString(rerr), ref.n, ref.errh, ref.ticks, ref.polls, rval)
@@ -445,8 +463,13 @@ func (engine) Run(src *sim.Src, log *sim.Log, res *sim.Result) {
 		if fireAt == -2 {
 			ctx.fire('0')
 		}
-		val, err := t.Parse(ctx, input, rec)
+		val, err, pnc := safeParse(t, ctx, input, rec)
 		res.Steps += ctx.nticks
+		if pnc != "" {
+			res.Fail("C29.safety", "panic:"+t.Name, "target %s, %d tokens, cancel(kind=%d) fired at tick %d of %d: the parse panicked (%s); the uncancelled parse returns err=%s",
+				t.Name, len(ends), ek, fireAt, ref.ticks, pnc, errString(ref.err))
+			return
+		}
 
 		isCtxErr := err != nil && ctx.err != nil && errors.Is(err, ctx.err)
 		same := rec.diverged < 0 && rec.n == ref.n && val == ref.val && sameErr(err, ref.err)
